@@ -127,6 +127,19 @@ def check_copy_stats(ctx, rule, m):
               f"{' (no branch on include_frequencies: ' + str(res.get(None)) + ')' if None in res else ''} - an emptied copy must not report the old sums", cp.where)
 
 
+def check_variance_domain(ctx, rule, m):
+    S = m.cls("Statistics")
+    # the formula applies whenever there is any weight; otherwise NaN (an empty histogram has no variance)
+    vr = S.methods["variance"]
+    polv = {}
+    for p_ in function_paths(vr.node):
+        for s_ in p_:
+            if s_[0] == "cond" and U(s_[1]) in ("self.weight > 0", "0 < self.weight") and end_kind(p_) == "return":
+                polv[s_[2]] = U(p_[-1][2].value)
+    ctx.check(polv.get(False) == "np.nan" and polv.get(True) not in (None, "np.nan") and len(polv) == 2, rule, "Statistics.variance:domain",
+              "formula iff weight > 0, NaN otherwise", f"variance returns per `self.weight > 0`: {polv}", vr.where)
+
+
 def run(ctx):
     m = ctx.model
     H1, HB, S = m.cls("Histogram1D"), m.cls("HistogramBase"), m.cls("Statistics")
@@ -259,15 +272,7 @@ def run(ctx):
     sm, s2, sw = Poly.sym("sum"), Poly.sym("sum2"), Poly.sym("weight")
     formula("mean", sm * sw.inv())
     formula("variance", s2 * sw.inv() - sm * sm * sw.inv() * sw.inv())
-    # the formula applies whenever there is any weight; otherwise NaN (an empty histogram has no variance)
-    vr = S.methods["variance"]
-    polv = {}
-    for p_ in function_paths(vr.node):
-        for s_ in p_:
-            if s_[0] == "cond" and U(s_[1]) in ("self.weight > 0", "0 < self.weight") and end_kind(p_) == "return":
-                polv[s_[2]] = U(p_[-1][2].value)
-    ctx.check(polv.get(False) == "np.nan" and polv.get(True) not in (None, "np.nan") and len(polv) == 2, "C14.b", "Statistics.variance:domain",
-              "formula iff weight > 0, NaN otherwise", f"variance returns per `self.weight > 0`: {polv}", vr.where)
+    check_variance_domain(ctx, "C14.b", m)
     std = S.methods.get("std")
     rets = [U(n.value) for n in ast.walk(std.node) if isinstance(n, ast.Return)]
     ctx.check(rets == ["np.sqrt(self.variance())"], "C14.b", "Statistics.std", "std = sqrt(variance())",
